@@ -391,7 +391,9 @@ def check_case(case, rec):
                 if expect[k]['conic'] is None:
                     expect[k]['conic'] = 0.0
             elif kind == 'conic':
-                expect[k]['conic'] = v if not scaled else after[k]['conic']
+                # (read through surface_group.conic: a conic given to a still-flat surface is kept by the plane and must
+                #  survive a later set_radius; the snapshot shows no conic for planes)
+                expect[k]['conic'] = v if not scaled else float(lens.surface_group.conic[k])
             elif kind == 'thickness':
                 newt = v if not scaled else (after[k + 1]['z'] - after[k]['z'])
                 delta = newt - (expect[k + 1]['z'] - expect[k]['z'])
@@ -535,6 +537,13 @@ def check_solves(rec, lens, solves, scale, opname, nK, finite_obj=False, stop_id
     todo = solves if opname == 'update' else solves[-1:]
     for _, k, h in todo:
         tol = 1e-9 * max(1.0, abs(h), epd, float(np.max(np.abs(ya))))
+        # a request that a LATER edit has made unsatisfiable (the marginal ray now runs parallel to the axis in front of
+        # the solved surface, or a position 1e4 system lengths away would be needed) is not a valid request any more
+        with np.errstate(all='ignore'):
+            need = (h - ya[k]) / ua[k - 1]
+        if abs(ya[k] - h) > tol and (not np.isfinite(need) or abs(need) > 1e4 * scale):
+            rec.cls('solve-became-unsatisfiable-skipped')
+            continue
         # known mechanism: a solve at or in front of the stop of a finite-object lens moves the entrance pupil and
         # with it the marginal ray itself; explained only if the applied shift is exactly the one-pass shift
         key = None
